@@ -323,6 +323,10 @@ CLAIMS.update({
                 'what C05_assoc_sack_sound proves of every SACK the real receiver emits; delayed / duplicated / reordered SACKs stay sound), with TsnOk, InSync holds whenever the receive queue is pop-normalised (run invariant run_hl: every gap-acked in-flight chunk was really received); '
                 'C02_netsys_honest_taken: one round with InSync replaced by Honest. STILL OPEN: iterating the honest step over the healed rounds (step_hl is the step lemma; the truthful SACK is sound), Room from FitsBuffer after the reads and reads = writes at the end (both need the converse of Reasm.OrdInv.pushed; '
                 'C02_netsys_all_read is NOT stated), HeadOk / pop-normalised queue from maxReassemblyQueueEntries = 0 (they fail only after a reassembly error, when the receiver is about to ABORT). '
+                'FOURTH PASS (Proofs/NetSys/Live{HonestN,Z}.lean): C02_netsys_drains_honest - the iterated drain theorem for Honest runs WITHOUT InSync: the SACK a healed round hands to the sender is the receiver\'s truthful one, which is sound (truthful_sound), so the honest-run invariant is kept round after round (hl_healed); '
+                'per-round premises RoundOkHN = receiver established, Room, Normal (receive queue pop-normalised), HeadOk. This is the STRONGEST drain theorem: beyond the standing hypotheses (MTU < 2^30, fragment size fits the MTU, < 2^31 chunks written / in flight, reliable ordered streams, sound SACK history, sender established) '
+                'it assumes exactly those four per-round premises. C02_netsys_entry_cap_off_partial: with maxReassemblyQueueEntries = 0 every reassembly queue of every reachable state has maxEntries = 0 (run_z), pushWithError returns no limit error and never panics, so a chunk acceptPayloadData decides to store is stored - the step towards deriving Normal and HeadOk, which are NOT yet assembled '
+                '(Normal needs: no bare push in a handleData trace => pop-normalised after every packet; HeadOk needs in addition willSendAbort = false along the run and non-empty user data of every history chunk). Room from FitsBuffer and reads = writes stay open (converse of Reasm.OrdInv.pushed); C02_netsys_all_read is NOT stated. '
                 'C02_netsys_stuck_witness (decide): with a receive buffer of two maximal chunks and a 3-chunk message the fault-free healed rounds NEVER deliver - acceptPayloadData drops the third chunk at a full buffer, the '
                 'incomplete message cannot be read, credit stays 0 - so "buffer >= one maximal chunk + application reads" is not enough; every message in progress must fit the receive buffer (maxMessageSize <= maxReceiveBufferSize; '
                 'true for the defaults 64 KiB / 1 MiB, not enforced by Config). '
